@@ -61,8 +61,9 @@ def gen_symtab(tier):
     h = H("c05_symbol_table_step", "    " + "\n    ".join(b), WHERE_ST, domain="accept", key="symbol-table/step",
              desc="SymbolTable: an immutable insert is invisible to get_mutable; inserting another name leaves it unchanged",
              functions=["SymbolTable::insert/get/get_mutable/contains (src/core/src/program/symbol_table.rs)"],
-             bounds="two names (concrete ids), symbolic u8 values", unwind=6, tier=tier)
-    h.attrs = ["#[kani::stub(::std::hash::RandomState::new, vp_random_state)]"]
+             bounds="two names (concrete ids), symbolic u8 values; HashMap under the all-colliding hasher stub", unwind=18, tier=tier)
+    from .c14 import STUB_RS, STUB_DH
+    h.attrs = [STUB_RS] + STUB_DH
     h.rec_limit = 1
     return h
 
@@ -73,7 +74,7 @@ def plan(tier, seed):
     return {
         "harnesses": hs,
         "incrate_prelude": {WHERE: "  use nalgebra::{DVector, DMatrix, RowDVector};\n",
-                            WHERE_ST: "  pub fn vp_random_state() -> ::std::hash::RandomState { unsafe { ::std::mem::transmute::<[u64; 2], ::std::hash::RandomState>([1u64, 2u64]) } }\n"},
+                            WHERE_ST: __import__("engine.props.c14", fromlist=["x"]).HASHER_STUBS},
         "explanation": "Kani/CBMC over detach_variable_value (the only step between evaluating `y := x` and storing y) and one SymbolTable step, "
                        "with the cell contents symbolic",
         "bounds": "scalars f64/u8/bool, 1x2 matrices f64/u8; one definition followed by one write through the source's cell",
